@@ -76,6 +76,17 @@ func generate1(idlText string) (r genResult) {
 	return
 }
 
+// generate1Parse: the IDL parser accepts the text.
+func generate1Parse(idlText string) (ok bool) {
+	defer func() {
+		if p := recover(); p != nil {
+			ok = false
+		}
+	}()
+	_, err := idl.ParsePackage([]byte(idlText))
+	return err == nil
+}
+
 // ---------------------------------------------------------------- type check
 
 type mapImporter map[string]*types.Package
@@ -228,6 +239,11 @@ func nodeText(fset *token.FileSet, n ast.Node) string {
 	return b.String()
 }
 
+// createdHygiene: the actions of the identifier hygiene atoms are driven on
+// the created object as well (thorough; quick: types, arities and the object
+// family only - the stub code under the two proxies is the same).
+var createdHygiene = false
+
 type glueItf struct {
 	idlName string
 	atoms   []*atom
@@ -280,11 +296,26 @@ func makeGlue(gen []byte, pkg *idl.PackageDeclaration, itfs []glueItf) (shims, m
 	mb.WriteString("package main\n\nimport (\n\t\"reflect\"\n\t\"verif/checks/c05/drv\"\n\tbus \"github.com/lugu/qiloop/bus\"\n)\n\nvar _ = reflect.TypeOf\n\nfunc main() {\n\tdrv.Main([]drv.Interface{\n")
 	for _, gi := range itfs {
 		n := gi.idlName
-		it := ifaces[n+"Implementor"]
+		// gn: the Go name of the interface - the IDL name, or <name>_<k> when the
+		// generator had to make it unique (a structure of the same name)
+		gn := n
+		if ifaces[gn+"Implementor"] == nil {
+			re := regexp.MustCompile(`^` + regexp.QuoteMeta(n) + `_[0-9]+Implementor$`)
+			var cands []string
+			for name := range ifaces {
+				if re.MatchString(name) {
+					cands = append(cands, name)
+				}
+			}
+			if len(cands) == 1 {
+				gn = strings.TrimSuffix(cands[0], "Implementor")
+			}
+		}
+		it := ifaces[gn+"Implementor"]
 		if it == nil {
 			return nil, nil, fmt.Errorf("the generated code declares no interface %sImplementor", n)
 		}
-		implType := "shim" + signature.CleanName(n)
+		implType := "shim" + signature.CleanName(gn)
 		// tag_: "" for the object registered as the service, otherwise the name the
 		// driver gave to an object it created through Create<X> (object family)
 		fmt.Fprintf(&body, "type %s struct {\n\th_   *drv.Handler\n\ttag_ string\n}\n\n", implType)
@@ -343,7 +374,7 @@ func makeGlue(gen []byte, pkg *idl.PackageDeclaration, itfs []glueItf) (shims, m
 		}
 		// constructors, found by their shape
 		var objCtor, proxyCtor, service, createCtor, makeCtor string
-		proxyType := signature.CleanName(n) + "Proxy"
+		proxyType := signature.CleanName(gn) + "Proxy"
 		for _, fd := range funcs {
 			ft := fd.Type
 			// Create<X>(session bus.Session, service bus.Service, impl <X>Implementor) (<X>Proxy, error)
@@ -358,7 +389,7 @@ func makeGlue(gen []byte, pkg *idl.PackageDeclaration, itfs []glueItf) (shims, m
 						pts = append(pts, nodeText(fset, p.Type))
 					}
 				}
-				if len(pts) == 3 && pts[0] == "bus.Session" && pts[1] == "bus.Service" && pts[2] == n+"Implementor" {
+				if len(pts) == 3 && pts[0] == "bus.Session" && pts[1] == "bus.Service" && pts[2] == gn+"Implementor" {
 					createCtor = fd.Name.Name
 				}
 			}
@@ -372,7 +403,7 @@ func makeGlue(gen []byte, pkg *idl.PackageDeclaration, itfs []glueItf) (shims, m
 				continue
 			}
 			pt := nodeText(fset, ft.Params.List[0].Type)
-			if pt == n+"Implementor" && len(ft.Results.List) == 1 && nodeText(fset, ft.Results.List[0].Type) == "bus.Actor" {
+			if pt == gn+"Implementor" && len(ft.Results.List) == 1 && nodeText(fset, ft.Results.List[0].Type) == "bus.Actor" {
 				objCtor = fd.Name.Name
 			}
 			if pt == "bus.Session" && len(ft.Results.List) == 2 && nodeText(fset, ft.Results.List[0].Type) == proxyType {
@@ -394,6 +425,9 @@ func makeGlue(gen []byte, pkg *idl.PackageDeclaration, itfs []glueItf) (shims, m
 		}
 		pit := parsed[n]
 		if pit == nil {
+			pit = parsed[gn]
+		}
+		if pit == nil {
 			return nil, nil, fmt.Errorf("interface %s not in the parsed package", n)
 		}
 		nas, err := nameActions(pit, gi.atoms)
@@ -410,8 +444,8 @@ func makeGlue(gen []byte, pkg *idl.PackageDeclaration, itfs []glueItf) (shims, m
 		}
 		mb.WriteString("\t\t\tActions: []drv.Action{\n")
 		for _, na := range nas {
-			fmt.Fprintf(&mb, "\t\t\t\t{Atom: %q, Kind: %q, IDLName: %q, NParams: %d, ImplName: %q, ProxyName: %q},\n",
-				na.atom.id, na.act.kind, na.act.name, len(na.act.params), na.implName, na.proxyName)
+			fmt.Fprintf(&mb, "\t\t\t\t{Atom: %q, Kind: %q, IDLName: %q, NParams: %d, ImplName: %q, ProxyName: %q, Created: %v},\n",
+				na.atom.id, na.act.kind, na.act.name, len(na.act.params), na.implName, na.proxyName, !na.atom.hygiene || createdHygiene)
 		}
 		mb.WriteString("\t\t\t}},\n")
 	}
